@@ -320,18 +320,95 @@ func c19Advance(p *Prog, c *Check) {
 		}
 		c.Analysed(shortFn(fn))
 		fi := p.Info(fn)
-		if len(callsTo(fn, "SetTxPointer")) == 0 {
+		// the pointer write: in the function itself or in a helper of the package it delegates to
+		type setSite struct {
+			ci   ssa.CallInstruction
+			v    view
+			gate *ssa.Call // the helper call in fn (nil when direct)
+		}
+		root := view{fi, func(t *Term) *Term { return t }}
+		var sets []setSite
+		for _, ci := range callsTo(fn, "SetTxPointer") {
+			sets = append(sets, setSite{ci, root, nil})
+		}
+		for _, b := range fn.Blocks {
+			for _, in := range b.Instrs {
+				hc, isCall := in.(*ssa.Call)
+				if !isCall {
+					continue
+				}
+				g := hc.Common().StaticCallee()
+				if g == nil || !inModule(g) || g.Blocks == nil || fnPkgPath(g) != fnPkgPath(fn) || isGeneratedFile(p.fileOf(g)) {
+					continue
+				}
+				g = origin(g)
+				for _, ci := range callsTo(g, "SetTxPointer") {
+					c.Analysed(shortFn(g))
+					sets = append(sets, setSite{ci, calleeView(p, root, hc), hc})
+				}
+			}
+		}
+		if len(sets) == 0 {
 			c.Fail(rule, shortFn(fn)+":advances", p.Rel(fn.Pos()), shortFn(fn), "pointer update after a keys message", "the function that must advance the tx pointer after a keys message does not write it with SetTxPointer (the upsert that also resets the age); the sibling path and this one would disagree on the next pointer")
 			n++
 			continue
 		}
-		for i, ci := range callsTo(fn, "SetTxPointer") {
+		// every successful return of the function has written the pointer
+		for _, r := range returnsOf(fn) {
+			nr := len(r.Results)
+			if nr == 0 || !isErrorType(r.Results[nr-1].Type()) || fi.errIsNil(r.Results[nr-1], r, 0) == no {
+				continue
+			}
+			passed := false
+			for _, st := range sets {
+				call, isCall := st.ci.(*ssa.Call)
+				if !isCall {
+					continue
+				}
+				if st.gate == nil {
+					if fi.mustPassSuccess(call, r.Block()) {
+						passed = true
+					}
+					continue
+				}
+				if !fi.mustPassSuccess(st.gate, r.Block()) {
+					continue
+				}
+				g := st.v.fi.Fn
+				all := true
+				gn := g.Signature.Results().Len()
+				for _, gr := range returnsOf(g) {
+					if gn == 0 || !isErrorType(gr.Results[gn-1].Type()) {
+						all = false
+						break
+					}
+					if st.v.fi.errIsNil(gr.Results[gn-1], gr, 0) == no {
+						continue
+					}
+					if !st.v.fi.mustPassSuccess(call, gr.Block()) {
+						all = false
+					}
+				}
+				if all {
+					passed = true
+				}
+			}
+			n++
+			c.Result(passed, rule, fmt.Sprintf("%s:always@%s", shortFn(fn), retKeyByCall(fi, r)), p.siteOf(r), shortFn(fn), "successful return after a keys message", "a keys message can be processed successfully without the tx pointer being written (an early return before SetTxPointer): this keyper's pointer and age then differ from the keypers that did write it, and their next identity lists disagree", "passes SetTxPointer(...) == nil")
+		}
+		for i, st := range sets {
+			ci := st.ci
+			sfi := st.v.fi
 			n++
 			key := fmt.Sprintf("%s:SetTxPointer#%d", shortFn(fn), i+1)
-			flds := fi.structLitFields(ci.Common().Args[len(ci.Common().Args)-1])
-			if flds == nil {
+			raw := sfi.structLitFields(ci.Common().Args[len(ci.Common().Args)-1])
+			if raw == nil {
 				c.Fail(rule, key, p.siteOf(ci), shortFn(fn), "SetTxPointer", "parameters are not a local literal")
 				continue
+			}
+			flds := map[string]*Term{}
+			for k, t := range raw {
+				flds[k] = st.v.up(t)
 			}
 			b := Binds{}
 			okE := ParsePat("$m.Eon").Match(flds["Eon"], b)
@@ -355,12 +432,12 @@ func c19Advance(p *Prog, c *Check) {
 			}
 			// Age{Int64:0, Valid:true}
 			okA := false
-			if age := flds["Age"]; age != nil && age.Val != nil {
-				af := fi.structLitFields(age.Val)
+			if age := raw["Age"]; age != nil && age.Val != nil {
+				af := sfi.structLitFields(age.Val)
 				if af == nil {
 					// by-value struct literal loaded from a local
 					if ld, ok := age.Val.(*ssa.UnOp); ok {
-						af = fi.structLitFields(ld)
+						af = sfi.structLitFields(ld)
 					}
 				}
 				okA = af != nil && af["Valid"] != nil && af["Valid"].s == "true" && (af["Int64"] == nil || af["Int64"].s == "0")
